@@ -45,7 +45,8 @@ fn close(got: f64, x: f64, factor: f64, pre: f64, rel: f64, extra_rel: f64) -> b
     let want = (x + pre) * factor;
     // outside the comfortably normal range of the storage type (f32: 1e-30..1e30, f64: 1e-290..1e290)
     // rounding to subnormals / overflow dominates: no verdict there
-    let (lo, hi) = if rel > 1e-9 { (1e-30, 1e30) } else { (1e-290, 1e290) };
+    // (a value taken in the base unit itself involves no scaling arithmetic: judged up to the largest finite f32)
+    let (lo, hi) = if rel > 1e-9 { (1e-30, if factor == 1.0 && pre == 0.0 { 3.0e38 } else { 1e30 }) } else { (1e-290, 1e290) };
     if !want.is_finite() || (x != 0.0 && (x.abs() < lo || x.abs() > hi)) || (want != 0.0 && (want.abs() < lo || want.abs() > hi)) {
         return true;
     }
@@ -62,7 +63,8 @@ pub fn run(cfg: &Cfg, rep: &mut Report) {
     let n = cfg.n(100, 8_000_000, 800_000_000);
     run_cases(cfg, "defined", n, rep, |rng, ctx| {
         let q = &QUANTITIES[(ctx.index % QUANTITIES.len() as u64) as usize];
-        let lit = gen_nrf(rng);
+        // now and then one of the numbers SCPI uses as response sentinels: as parameters they are ordinary values
+        let lit = if rng.chance(1, 150) { rng.pick(&[&b"9.9E37"[..], b"9.9e+37", b"-9.9E37", b"9.91E37", b"9.91e+37", b"99e36", b"-991E35", b"9.8e37"]).to_vec() } else { gen_nrf(rng) };
         let x: f64 = std::str::from_utf8(&lit).unwrap().parse().unwrap();
         let x32: f32 = std::str::from_utf8(&lit).unwrap().parse().unwrap();
         if !x32.is_finite() {
